@@ -1397,8 +1397,10 @@ func (c *checker) faultFamily(rng *vlib.Rng) {
 		return
 	}
 	ls, lb := len(files[stateFile]), len(files[bridgeFile])
-	for _, args := range []map[string]string{nil, {"iat-mode": "2"}, {"iat-mode": "0"}} {
-		for _, k := range faultLimits(lb, []int{ls}, c.allTorn, rng) {
+	// thorough: every limit 0..len+1 for the plain restart, the first start and the ticket store;
+	// the dense sample for the other variants
+	for ai, args := range []map[string]string{nil, {"iat-mode": "2"}, {"iat-mode": "0"}} {
+		for _, k := range faultLimits(lb, []int{ls}, c.allTorn && ai == 0, rng) {
 			c.faultCase(replayCase{Type: "fault", Fault: "restart", Args: args, Limit: k, Seed: seed})
 		}
 	}
@@ -1406,7 +1408,7 @@ func (c *checker) faultFamily(rng *vlib.Rng) {
 		c.faultCase(replayCase{Type: "fault", Fault: "first", Limit: k, Seed: seed})
 	}
 	for _, op := range []string{"store", "get"} {
-		for _, k := range faultLimits(900, []int{290, 580}, c.allTorn, rng) {
+		for _, k := range faultLimits(900, []int{290, 580}, c.allTorn && op == "store", rng) {
 			c.faultCase(replayCase{Type: "fault", Fault: "tickets", Args: map[string]string{"op": op}, Limit: k, Seed: seed})
 		}
 	}
